@@ -7,6 +7,10 @@ instance attribute / `dimension` keyword / `len(values)`; `__init__` in all posi
 `ChangingIndex`, `IndexAsScalar`; `Curve`).  Helper lemmas, `Inv`, `CInv`, `accepts`:
 `Barril/Proofs/FixedLemmas.lean`.
 
+Sections 6 and 7 cover the rest of the public surface: `len` / iteration / indexing / slicing / the public
+`CheckValues` / `==` / `FromScalars` / extra keywords of `CreateCopy` on a FixedArray, and reading a Curve
+(`curve[i]`, `curve[a:b:c]`, `GetLength()`, `repr`).
+
 `Inv fa` is `len(values) == dimension >= 2`.  Arithmetic is proved for ANY `operation_func`
 (`F : OpFunc`), so derived results (array*array …) are covered although the driver only runs the
 simple ones.  Objects are immutable values in the model: "leaves its source unchanged" is the
@@ -782,6 +786,19 @@ theorem curve_repr_spec (h : Content) (c : Curve) (hf : Faithful h) (hc : CInv c
     omega
   · simp only [Curve.repr, hr, hz]
     simp
+
+/-- element access **after any history**: on the curve a constructor call and any sequence of setter calls
+(accepted or rejected) and reads have led to, `curve[i]` is `(domain[j], image[j])` for every index of the
+curve — `n = GetLength()` is the length of BOTH — and `IndexError` for every other `i` -/
+theorem curve_getitem_after_any_history (h : Content) (hf : Faithful h) (image domain : ArrRef) (c : Curve)
+    (hnew : Curve.new image domain = .ok c) (os : List CurveOp) (i : Int) :
+    (c.runOps os).length = (c.runOps os).domain.len ∧
+    (∀ j, normIndex (c.runOps os).length i = some j →
+        ∃ d im, (h (c.runOps os).domain).elems[j]? = some d ∧ (h (c.runOps os).image).elems[j]? = some im ∧
+          (c.runOps os).getItem h i = .ok (d, im)) ∧
+    (normIndex (c.runOps os).length i = none → (c.runOps os).getItem h i = .error .index) := by
+  have hc := curve_ops_inv image domain c hnew os
+  exact ⟨hc, curve_getitem_spec h (c.runOps os) i hf hc⟩
 
 /-- `GetLength()` is the common length of image and domain -/
 theorem curve_length_spec (c : Curve) (hc : CInv c) : c.length = c.image.len ∧ c.length = c.domain.len :=
